@@ -10,8 +10,7 @@
    count 0 / negative counts, 46fed32 cursor up/down with counts below 1); the
    two repaired functions are kept as `_pinned` definitions.
 
-   Outside the model: completion state and selection state (both assumed
-   absent: auto_up/auto_down take their history branch), read-only buffers,
+   Outside the model: completion state (assumed absent), read-only buffers,
    events, undo stack, ThreadedHistory/FileHistory, and real asynchrony of the
    validator (a scheduled validate-while-typing run completes before the next
    operation). *)
@@ -41,7 +40,8 @@ Record hs := mk {
   task : option Z;        (* _load_history_task: None, or Some (index of the
                              next item of the live _loaded_strings list) *)
   tfin : bool;            (* the load generator is exhausted *)
-  ehs : bool              (* enable_history_search() *)
+  ehs : bool;             (* enable_history_search() *)
+  sel : bool              (* selection_state is not None *)
 }.
 
 (* What does not change during a session *)
@@ -51,16 +51,17 @@ Record cfg := mkcfg {
   val : option (str -> Z -> option Z)        (* validator: text, cursor -> error position *)
 }.
 
-Definition set_wl s v := mk v (wi s) (cur s) (hst s) (pref s) (vst s) (pend s) (store s) (task s) (tfin s) (ehs s).
-Definition set_wi_raw s v := mk (wl s) v (cur s) (hst s) (pref s) (vst s) (pend s) (store s) (task s) (tfin s) (ehs s).
-Definition set_cur_raw s v := mk (wl s) (wi s) v (hst s) (pref s) (vst s) (pend s) (store s) (task s) (tfin s) (ehs s).
-Definition set_hst s v := mk (wl s) (wi s) (cur s) v (pref s) (vst s) (pend s) (store s) (task s) (tfin s) (ehs s).
-Definition set_pref s v := mk (wl s) (wi s) (cur s) (hst s) v (vst s) (pend s) (store s) (task s) (tfin s) (ehs s).
-Definition set_vst s v := mk (wl s) (wi s) (cur s) (hst s) (pref s) v (pend s) (store s) (task s) (tfin s) (ehs s).
-Definition set_pend s v := mk (wl s) (wi s) (cur s) (hst s) (pref s) (vst s) v (store s) (task s) (tfin s) (ehs s).
-Definition set_store s v := mk (wl s) (wi s) (cur s) (hst s) (pref s) (vst s) (pend s) v (task s) (tfin s) (ehs s).
-Definition set_task s v f := mk (wl s) (wi s) (cur s) (hst s) (pref s) (vst s) (pend s) (store s) v f (ehs s).
-Definition set_ehs s v := mk (wl s) (wi s) (cur s) (hst s) (pref s) (vst s) (pend s) (store s) (task s) (tfin s) v.
+Definition set_wl s v := mk v (wi s) (cur s) (hst s) (pref s) (vst s) (pend s) (store s) (task s) (tfin s) (ehs s) (sel s).
+Definition set_wi_raw s v := mk (wl s) v (cur s) (hst s) (pref s) (vst s) (pend s) (store s) (task s) (tfin s) (ehs s) (sel s).
+Definition set_cur_raw s v := mk (wl s) (wi s) v (hst s) (pref s) (vst s) (pend s) (store s) (task s) (tfin s) (ehs s) (sel s).
+Definition set_hst s v := mk (wl s) (wi s) (cur s) v (pref s) (vst s) (pend s) (store s) (task s) (tfin s) (ehs s) (sel s).
+Definition set_pref s v := mk (wl s) (wi s) (cur s) (hst s) v (vst s) (pend s) (store s) (task s) (tfin s) (ehs s) (sel s).
+Definition set_vst s v := mk (wl s) (wi s) (cur s) (hst s) (pref s) v (pend s) (store s) (task s) (tfin s) (ehs s) (sel s).
+Definition set_pend s v := mk (wl s) (wi s) (cur s) (hst s) (pref s) (vst s) v (store s) (task s) (tfin s) (ehs s) (sel s).
+Definition set_store s v := mk (wl s) (wi s) (cur s) (hst s) (pref s) (vst s) (pend s) v (task s) (tfin s) (ehs s) (sel s).
+Definition set_task s v f := mk (wl s) (wi s) (cur s) (hst s) (pref s) (vst s) (pend s) (store s) v f (ehs s) (sel s).
+Definition set_sel s v := mk (wl s) (wi s) (cur s) (hst s) (pref s) (vst s) (pend s) (store s) (task s) (tfin s) (ehs s) v.
+Definition set_ehs s v := mk (wl s) (wi s) (cur s) (hst s) (pref s) (vst s) (pend s) (store s) (task s) (tfin s) v (sel s).
 
 (* Buffer.text: _working_lines[working_index] (Python indexing) *)
 Definition text (s : hs) : str :=
@@ -91,7 +92,7 @@ Definition set_cursor (s : hs) (v : Z) : hs :=
 
 (* _text_changed *)
 Definition text_changed (c : cfg) (s : hs) : hs :=
-  let s1 := set_pref (set_vst s V_UNKNOWN) None in
+  let s1 := set_sel (set_pref (set_vst s V_UNKNOWN) None) false in
   match val c with
   | Some _ => if vwt c then set_pend s1 true else s1
   | None => s1
@@ -209,15 +210,19 @@ Definition cursor_down (s : hs) (count : Z) : hs :=
 Definition go_start_of_line (s : hs) : hs :=
   set_cursor s (cur s + get_start_of_line_position (sdoc s) false).
 
-(* auto_up / auto_down with complete_state = None and selection_state = None *)
+(* auto_up / auto_down with complete_state = None: inside a multi-line text
+   move the cursor, otherwise browse the history - unless something is
+   selected, then nothing happens *)
 Definition auto_up (c : cfg) (s : hs) (count : Z) (gts : bool) : hs :=
   if 0 <? cursor_position_row (sdoc s) then cursor_up s count
+  else if sel s then s
   else
     let s1 := history_backward c s count in
     if gts then go_start_of_line s1 else s1.
 
 Definition auto_down (c : cfg) (s : hs) (count : Z) (gts : bool) : hs :=
   if cursor_position_row (sdoc s) <? line_count (sdoc s) - 1 then cursor_down s count
+  else if sel s then s
   else
     let s1 := history_forward c s count in
     if gts then go_start_of_line s1 else s1.
@@ -284,7 +289,7 @@ Definition append_to_history_pinned (s : hs) : hs :=
 (* Buffer.reset(Document(t, c), append_to_history=app) *)
 Definition reset (s : hs) (t : str) (c : Z) (app : bool) : hs :=
   let s0 := if app then append_to_history s else s in
-  mk [t] 0 c None None V_UNKNOWN (pend s0) (store s0) None false (ehs s0).
+  mk [t] 0 c None None V_UNKNOWN (pend s0) (store s0) None false (ehs s0) false.
 
 (* validate_and_handle; the accept handler records buffer.text and returns
    [keep c] *)
@@ -295,6 +300,20 @@ Definition validate_and_handle (c : cfg) (s : hs) : hs * option str :=
     let s2 := append_to_history s1 in
     (if keep c then s2 else reset s2 [] 0 false, Some ret)
   else (s1, None).
+
+(* A new session on the same backend (next program run on the same history
+   file): a fresh History object - nothing loaded, nothing cached - and a
+   fresh buffer. *)
+Definition reopen (s : hs) : hs :=
+  reset (set_store s (mkst [] (sto (store s)) false)) [] 0 false.
+
+(* Buffer.apply_search once the search found (working_index, cursor_position):
+       self.working_index = working_index; self.cursor_position = cursor_position
+   (the search itself is C16's subject; whatever it finds, this is all that
+   happens to the buffer - history_search_text is not touched).  The guard
+   states what _search guarantees about the index. *)
+Definition jump (c : cfg) (s : hs) (i p : Z) : hs :=
+  if (0 <=? i) && (i <? len (wl s)) then set_cursor (set_wi c s i) p else s.
 
 (* load_history_if_not_yet_loaded: creates the task; nothing is read yet *)
 Definition load_start (s : hs) : hs :=
@@ -353,7 +372,10 @@ Inductive op :=
 | OPop
 | OPopAll
 | OSetEhs (b : bool)
-| OAppend.
+| OAppend
+| OReopen
+| OJump (i p : Z)
+| OSelect (b : bool).
 
 Definition ST_OK : Z := 0.
 
@@ -392,6 +414,9 @@ Definition step_core (c : cfg) (s : hs) (o : op) : outcome :=
   | OPopAll => ok (pop_all s)
   | OSetEhs b => ok (set_ehs s b)
   | OAppend => ok (append_to_history s)
+  | OReopen => ok (reopen s)
+  | OJump i p => ok (jump c s i p)
+  | OSelect b => ok (set_sel s b)      (* start_selection() / exit_selection() *)
   end.
 
 (* an operation followed by the completion of the validation it scheduled *)
@@ -403,7 +428,7 @@ Definition steps (c : cfg) (s : hs) (ops : list op) : hs := fold_left (step_stat
 
 (* A freshly constructed Buffer(history=InMemoryHistory(storage)) *)
 Definition init (storage : list str) (e : bool) : hs :=
-  mk [[]] 0 0 None None V_UNKNOWN false (mkst [] storage false) None false e.
+  mk [[]] 0 0 None None V_UNKNOWN false (mkst [] storage false) None false e false.
 
 (* ---------------------------------------------------------------------- *)
 (* Validators available to the correspondence harness (the theorems quantify
@@ -468,6 +493,9 @@ Definition dec_op (x : sx) : option op :=
   | L [A 19] => Some OPopAll
   | L [A 20; A b] => Some (OSetEhs (b =? 1))
   | L [A 21] => Some OAppend
+  | L [A 22] => Some OReopen
+  | L [A 23; A i; A p] => Some (OJump i p)
+  | L [A 25; A b] => Some (OSelect (b =? 1))
   | _ => None
   end.
 
@@ -512,7 +540,7 @@ Definition dec_rule (x : sx) : option (vcond * vpos) :=
 
 Definition enc_state (s : hs) : list sx :=
   [ sx_list sx_str (wl s); A (wi s); A (cur s); sx_opt sx_str (hst s); sx_opt sx_Z (pref s);
-    A (vst s); sx_list sx_str (loaded_view (store s)); sx_list sx_str (sto (store s)) ].
+    A (vst s); sx_list sx_str (loaded_view (store s)); sx_list sx_str (sto (store s)); sx_bool (sel s) ].
 
 Definition enc_outcome (x : outcome) : sx :=
   let '(st, s, r) := x in L (A st :: sx_opt sx_str r :: enc_state s).
